@@ -10,9 +10,10 @@ rm -rf $D; mkdir -p $D
 rsync -a --exclude /target --exclude /.git /repo/ $D/repo/
 (cd $D/repo && patch -p1 -s < $V/seeded/$S/patch.diff) || { echo "patch does not apply"; exit 9; }
 cd $V
-# trials share /verif/.cache (build directories) with each other and with ordinary runs: one trial per property at a time
+# trials have their own build cache (never /verif/.cache, which ordinary runs use) and share it with each other:
+# one trial per property at a time
 mkdir -p /var/tmp/vp
-VERIF_REPO=$D/repo VERIF_SCRATCH=$D/scratch VERIF_WORK=$D/work VERIF_EVIDENCE=$D/evidence VERIF_REPLAY_OUT=$D/replay flock /var/tmp/vp/trial.$P.lock ./check $P --tier $T
+VERIF_CACHE=/var/tmp/verif-seed/_cache VERIF_REPO=$D/repo VERIF_SCRATCH=$D/scratch VERIF_WORK=$D/work VERIF_EVIDENCE=$D/evidence VERIF_REPLAY_OUT=$D/replay flock /var/tmp/vp/trial.$P.lock ./check $P --tier $T
 rc=$?
 rm -rf $D/repo $D/scratch
 echo "exit=$rc"
